@@ -16,12 +16,12 @@ theorem psf1_load_exact (mode cs : Nat) (hcs : 1 ≤ cs) (gs : List (Option Glyp
     (hn : gs.length ≤ 55296) (t : List Nat) (ht : t.length < cs) :
     fromBytes (0x36 :: 0x04 :: mode :: cs :: (flat gs ++ t)) =
       .ok { w := 8, h := cs, length := if mode % 2 = 1 then 512 else 256, glyphs := gs } := by
-  rw [fromBytes_psf1, glyphsFromU8_flat_tail cs hcs gs hr hn t ht]
+  rw [fromBytes_psf1 mode cs (by omega), glyphsFromU8_flat_tail cs hcs gs hr hn t ht]
 
-/-- char size 0 (repaired loader): accepted, no glyphs -/
+/-- char size 0: rejected for every mode byte and every rest (repair of `BitFont::from_bytes`: a font of height 0 in
+    slot 0 made `parse_with_parser` divide by zero when it sized a sixel layer) -/
 theorem psf1_charsize_zero (mode : Nat) (rest : List Nat) :
-    fromBytes (0x36 :: 0x04 :: mode :: 0 :: rest) = .ok { w := 8, h := 0, length := if mode % 2 = 1 then 512 else 256, glyphs := [] } := by
-  rw [fromBytes_psf1]; rfl
+    fromBytes (0x36 :: 0x04 :: mode :: 0 :: rest) = .err := fromBytes_psf1_zero mode rest
 
 /-- **PSF1 → the engine's encoding → back**: a PSF1 file that holds exactly the number of glyphs its mode byte announces
     (256, or 512 with mode bit 0) loads as a font that `to_psf2_bytes` / `from_bytes` give back unchanged: the 512-glyph
